@@ -3,7 +3,7 @@ generator, model-input translation, independent monitor."""
 PROP = "C20"
 DRIVER = "c20"
 MODEL = "C20"
-MODEL_QUALID = "Model.Layers.run_script"
+MODEL_QUALID = "Model.LayerSem.run_script"
 FORMAT = (
     "first integer = mode. Real layer ids: 0 bulkhead 1 ratelimiter 2 circuitbreaker 3 retry 4 timelimiter "
     "5 cache 6 fallback 7 hedge 8 reconnect 9 adaptive 10 coalesce 11 executor 12 chaos(rates 0) "
@@ -12,71 +12,114 @@ FORMAT = (
     "advances 6 ms before the first request: the first call reaching the breaker is the half-open trial call, a "
     "successful trial closes it) 17 the same for with_fallback 18 circuitbreaker that is Open at every client "
     "poll_ready and is force_closed() between the client's poll_ready and call (force_open() again after the "
-    "request) 19 the same for with_fallback using reset(). "
-    "mode 1 (readiness protocol, strict contract-checking wrapped service): [1; n; layer ids outermost first; k "
-    "(extra attempts of retry/hedge/reconnect); nreq; oracle of the wrapped poll_ready: 0 Ready 1 Pending 2 Err...] "
-    "-> per request 0 called / 1 readiness error at poll_ready / 2 readiness error inside the call / 3 never ready, "
-    "then the wrapped service's log, instances renamed by first use: [1; inst; r] poll, [2; inst; was-ready] call, "
-    "then [violations]. The model sees the discipline code of each layer instead of its id (model_input): "
-    "0 Swap 1 Direct 2 Retry 3 Hedge 4 Reconnect. "
+    "request) 19 the same for with_fallback using reset() 20 hedge in latency mode (delay 1 ms; every call of the "
+    "strict service then takes 10 ms so that all k hedges fire through the timer branch) 21 bulkhead at its gate "
+    "(max_concurrent_calls 1, max_wait_duration 1 s) 22 rate limiter at its gate (1 permit per 10 ms window, "
+    "timeout 30 ms) 23 adaptive limiter at its gate (AIMD, limit fixed to 1). "
+    "mode 1 (readiness protocol, strict contract-checking wrapped service, one handle, one request after the other): "
+    "[1; n; layer ids outermost first; k (extra attempts of retry/hedge/reconnect); nreq; shared oracle of the "
+    "wrapped poll_ready: 0 Ready 1 Pending 2 Err...] -> per request 0 called and answered Ok(10*request) / 1 readiness "
+    "error at poll_ready, in the pass-through wrapping of all n layers / 2 the same inside the call / 3 never ready "
+    "(never produced by the model: 4 poll_ready failed with anything else, 5 readiness error in a wrong wrapping "
+    "inside the call, 6 any other outcome, 7 panic, 9 never completed), then the wrapped service's log, instances "
+    "renamed by first use: [1; inst; r; 0] poll, [2; inst; was-ready; request] call, then [violations]. The model sees "
+    "the discipline code of each layer instead of its id (model_input): 0 Swap 1 Direct 2 Retry 3 Hedge 4 Reconnect. "
+    "mode 3 (client programs over the same service): [3; n; layer ids; k; nops; (opcode; a; b)*nops; per-instance "
+    "oracle: the answers of the instance used first, -1, those of the instance used second, -1, ...]; opcodes 0 poll "
+    "handle a until Ready (at most 8 Pending) / 1 call on handle a, b=1: the wrapped service's calls for this request "
+    "are held until released / 2 clone handle a (handles are numbered in order of creation, 0 = the stack) / "
+    "3 release request a / 4 one poll_ready on handle a while its layer's gate is closed / 5 call on handle a, future "
+    "left un-polled / 6 drive the future of request a -> one code per operation (poll: as in mode 1; call and clone: "
+    "0 done, 8 refused because the handle is unknown or was not polled ready; gate: 3 Pending; others 0), one "
+    "outcome code per issued request (every held call is released at the end), log and [violations] as in mode 1. "
     "mode 0 (transparency): [0; n; layer ids; inner kind 0 direct / 1 tower Buffer / 2 tower ConcurrencyLimit(2); nreq; "
     "(req; okind 0 Ok 1 Err; oval)*] -> per request [inner calls; request seen by the wrapped service; 0 Ok / "
     "1 inner error wrapped only in pass-through variants / 2 anything else; payload]. "
-    "mode 2 (listeners): [2; layer id; nlisteners; panic mask; nreq; okind* (0 ok 1 error 2 transient-then-ok "
-    "3 slow 4 transient)] -> per request [outcome equals the run with well-behaved listeners; every listener "
-    "counted exactly the events the reference listeners counted]"
+    "mode 2 (listeners, one layer in a triggering configuration): [2; layer id; nlisteners; panic mask; nreq; okind* "
+    "(0 ok 1 error 2 transient-then-ok 3 slow 4 transient)] -> per request [outcome equals the run with well-behaved "
+    "listeners; every listener counted, per event kind, exactly the events the reference listeners counted]. "
+    "mode 4 (listeners on every layer of a stack, non-triggering configuration): [4; n; layer ids; nlisteners; panic "
+    "mask; nreq; (req; okind; oval)*] -> per request the four integers of mode 0, then for every layer position, every "
+    "listener and every event kind 0..5 the number of invocations"
 )
 RULE = (
     "mode 1: every layer alone x k 0..3 x 1..2(3) requests x a Pending, an Err, Pending+Pending/Err at every poll "
-    "position including the polls before extra attempts; random oracles; stacks of 2..4 layers (k = 0, and k > 0 "
-    "with exactly one retry/hedge/reconnect layer); the guide's stacks. mode 0: every layer x inner kinds x ok/err, "
-    "random stacks of 2..5 layers, the composition guide's stacks. mode 2: every layer with a listener API x 1..4 "
-    "listeners x every panic mask. thorough adds all oracles over {Ready,Pending,Err} up to length 4 per layer and "
-    "all two-layer stacks. Circuit breakers that have been OPEN (ids 16..19, both Service impls): alone and at every "
-    "depth of random stacks in modes 1 and 0 (all inner kinds), so that the half-open trial call and the call after "
-    "force_closed()/reset() are checked against the strict service, Buffer and ConcurrencyLimit. Non-trivial = some Pending/Err or k > 0 (mode 1), depth >= 2 or Buffer/ConcurrencyLimit "
-    "(mode 0), some listener panics (mode 2)"
+    "position including the polls before extra attempts; runs of up to 11 Pending answers before a further attempt; "
+    "random oracles; stacks of 2..4 layers (k = 0; k > 0 with one retry/hedge/reconnect layer, or with two of retry / "
+    "retry-zero-backoff / reconnect-on-top, the wrapped service failing every attempt but the last possible one); the "
+    "guide's stacks; hedge in latency mode (20) alone and in stacks with Pending and Err answers on the hedge clones; "
+    "rate limiter at its gate (22). mode 3: the sequential client, a clone of the stack per request, re-polls of a "
+    "ready handle, overlapping requests (held calls, released in any order) over every layer and random stacks with "
+    "per-instance oracles; bulkhead at its gate (21: a second request queues for the permit while the first is held, "
+    "then the first is released) and adaptive limiter at its limit (23) at every depth of random stacks; parallel "
+    "hedges with Pending answers on the hedge clones; futures left un-polled while the handle is polled and called "
+    "again. mode 0: every layer x inner kinds x ok/err, random stacks of 2..5 layers, the composition guide's stacks. "
+    "mode 2: every layer with a listener API x 1..4 listeners x every panic mask. mode 4: every layer alone, the "
+    "guide's stacks and random stacks with 1..3 listeners on every layer x every panic mask. thorough adds all "
+    "oracles over {Ready,Pending,Err} up to length 4 per layer and all two-layer stacks. Circuit breakers that have "
+    "been OPEN (ids 16..19, both Service impls): alone and at every depth of random stacks in modes 1 and 0 (all inner "
+    "kinds). Non-trivial = some Pending/Err or k > 0 (mode 1), more than one handle / a held or un-polled call / a "
+    "gated layer / some Pending/Err (mode 3), depth >= 2 or Buffer/ConcurrencyLimit (mode 0), some listener panics "
+    "(modes 2, 4)"
 )
 TRUSTED = [
-    "harness/src/bin/c20.rs: the strict wrapped service (per-instance ready flag, shared oracle), the scripted "
-    "wrapped service, the client loop (poll_ready until Ready on one long-lived instance, then call)",
+    "harness/src/bin/c20.rs: the strict wrapped service (per-instance ready flag, shared or per-instance oracle, "
+    "calls that can be held), the scripted wrapped service, the clients (mode 1: poll_ready until Ready on one "
+    "long-lived instance, then call; mode 3: the program interpreter, which refuses a call on a handle it has not "
+    "polled ready)",
     "each layer sits under tower::util::MapErr + tower::util::BoxCloneService (uniform error/type for run-time "
     "stacks); both forward poll_ready/call to the instance they hold",
     "the layer -> discipline table DISC below (read off each crate's call())",
-    "reconnect (callbacks exist only behind the `tracing` feature), adaptive, coalesce and executor have no "
-    "listener API: mode 2 answers [1; 1] for them without running anything",
+    "the per-layer event tables pre_events / post_events of coq/Model/LayerSem.v (which events a non-triggered call "
+    "emits), checked by the mode-4 correspondence",
+    "reconnect's listener API are the on_state_change / on_reconnect callbacks of the crate's `tracing` feature "
+    "(enabled in harness/Cargo.toml): ONE callback per kind, so listener 0 is on_state_change (event kind 0), "
+    "listener 1 is on_reconnect (kind 1) and further listeners are not registered; adaptive, coalesce and executor "
+    "have no listener API: mode 2 answers [1; 1] for them without running anything",
     "mode 2 uses triggering configurations (small breaker window, rate limit 2, cache of 2, 20 ms time limit, "
-    "10 ms hedge delay, chaos error rate 0.5 with a fixed seed) so that every event kind is emitted",
+    "10 ms hedge delay, chaos error rate 0.5 with a fixed seed) so that every event kind is emitted; its model is "
+    "the constant [1; 1] per request (the comparison is between two runs of the same binary)",
 ]
 ASSUMPTIONS = [
-    "requests are issued one at a time by a client that respects the contract on the top layer",
-    "hedge: Pending answers are only scripted where no hedge tasks run (k = 0 or top-level polls before them): "
-    "the real hedge tasks interleave round-robin, the model runs them one after the other",
+    "a call is atomic in the model: what a layer defers into its future (waiting for a bulkhead permit, a rate "
+    "limiter window, a spawned task) is not modelled; mode-3 scripts are generated so that the wrapped service's log "
+    "does not depend on it (a call that queues behind a held request is followed at once by the release of that "
+    "request; held requests only with k = 0); scripts with un-polled futures (opcode 5) are compared on the codes, "
+    "the violation count and the multiset of calls only",
+    "hedge in parallel mode (7): the real hedge tasks interleave, the model runs them one after the other; in mode 1 "
+    "Pending answers are only scripted where no parallel hedge tasks run; in mode 3 (per-instance oracle) they are, "
+    "and the logs are compared instance by instance",
     "hedge treats every primary error as its trigger (it waits for the hedge and reports AllAttemptsFailed, never "
-    "HedgeError::Inner): transparency scripts containing hedge use Ok inner outcomes only",
+    "HedgeError::Inner): transparency scripts containing hedge use Ok inner outcomes only; a readiness error met by a "
+    "hedge attempt fails that attempt only (by design) and is not required to surface",
     "a breaker that starts Open (16/17) is scripted so that its half-open trial call succeeds (mode 0: first inner "
     "outcome Ok; mode 1: no retrying layer above it when k > 0), otherwise it re-opens and rejects, which is not a "
     "non-triggering configuration",
-    "retry / hedge / reconnect with k > 0 are scripted in stacks only when they are the single such layer (the "
-    "wrapped service fails exactly the first k attempts of a request); below a hedge with k > 0 no layer that "
-    "spawns a task (executor, non-cancelling time limiter)",
+    "retry / hedge / reconnect with k > 0: one such layer per stack, or two of retry (3, 15) / reconnect-above-retry; "
+    "below a hedge with k > 0 no layer that spawns a task (executor, non-cancelling time limiter)",
 ]
+# scripts on which the REAL code violates the property (none known)
+KNOWN_DEFECT = []
 
 NAMES = ["bulkhead", "ratelimiter", "circuitbreaker", "retry", "timelimiter", "cache", "fallback", "hedge",
          "reconnect", "adaptive", "coalesce", "executor", "chaos", "cb_with_fallback", "timelimiter_nocancel",
          "retry_zero_backoff", "cb_was_open", "cb_fallback_was_open", "cb_closed_between_poll_and_call",
-         "cb_fallback_reset_between_poll_and_call"]
+         "cb_fallback_reset_between_poll_and_call", "hedge_latency_mode", "bulkhead_at_gate", "ratelimiter_at_gate",
+         "adaptive_at_gate"]
 # the layers that can go anywhere; 16/17 (breaker that starts Open) need their half-open trial call to
-# succeed and are generated separately (OPENED)
+# succeed and are generated separately (OPENED); 20..23 are generated separately too
 ALL = list(range(16)) + [18, 19]
 OPENED = (16, 17)
 CB_VARIANTS = (16, 17, 18, 19)
 # discipline codes of Model/Layers.v: 0 Swap 1 Direct 2 Retry 3 Hedge 4 Reconnect
 DISC = {0: 0, 1: 0, 2: 0, 3: 2, 4: 0, 5: 1, 6: 0, 7: 3, 8: 4, 9: 1, 10: 1, 11: 0, 12: 0, 13: 0, 14: 0, 15: 2,
-        16: 0, 17: 0, 18: 0, 19: 0}
-SPECIAL = (3, 7, 8, 15)
-LISTENER_LAYERS = [0, 1, 2, 3, 4, 5, 6, 7, 12, 13, 14, 15]
-NO_LISTENER_LAYERS = [8, 9, 10, 11]
+        16: 0, 17: 0, 18: 0, 19: 0, 20: 3, 21: 0, 22: 0, 23: 1}
+SPECIAL = (3, 7, 8, 15, 20)
+HEDGES = (7, 20)
+LISTENER_LAYERS = [0, 1, 2, 3, 4, 5, 6, 7, 8, 12, 13, 14, 15]
+NO_LISTENER_LAYERS = [9, 10, 11]
+# layers usable in client programs (mode 3): no harness hooks around the client's steps (18, 19)
+PROG = list(range(16))
 
 # the composition guide's stacks (crates/tower-resilience/src/composition.rs, tower_primer.rs), outermost first
 GUIDE = [
@@ -101,6 +144,50 @@ def lis(lid, nl, mask, okinds):
     return [2, lid, nl, mask, len(okinds)] + list(okinds)
 
 
+def lis4(ids, nl, mask, reqs):
+    out = [4, len(ids)] + list(ids) + [nl, mask, len(reqs)]
+    for r in reqs:
+        out += list(r)
+    return out
+
+
+# client programs (mode 3)
+POLL, CALL, CLONE, RELEASE, GATE, LAZY, DRIVE = 0, 1, 2, 3, 4, 5, 6
+
+
+def prog(ids, k, ops, segs=()):
+    out = [3, len(ids)] + list(ids) + [k, len(ops)]
+    for o in ops:
+        out += list(o)
+    for s in segs:
+        out += list(s) + [-1]
+    return out
+
+
+def seq_ops(nreq):
+    ops = []
+    for _ in range(nreq):
+        ops += [(POLL, 0, 0), (CALL, 0, 0)]
+    return ops
+
+
+def clone_ops(nreq):
+    """a clone of the stack per request"""
+    ops = []
+    for j in range(nreq):
+        ops += [(CLONE, 0, 0), (POLL, j + 1, 0), (CALL, j + 1, 0)]
+    return ops
+
+
+def gate_ops(second_held):
+    """the first request is held inside the wrapped service; the second one is polled ready, called (it queues at
+    the gate) and the first is released at once"""
+    ops = [(POLL, 0, 0), (CALL, 0, 1), (POLL, 0, 0), (CALL, 0, 1 if second_held else 0), (RELEASE, 1, 0)]
+    if second_held:
+        ops.append((RELEASE, 2, 0))
+    return ops + [(POLL, 0, 0), (CALL, 0, 0)]
+
+
 def corpus():
     out = []
     for st in GUIDE:
@@ -109,13 +196,22 @@ def corpus():
             out.append(transp(st, ik, [(5, 0, 11), (6, 0 if hedge else 1, 12), (5, 0, 13)]))
         out.append(proto(st, 0, 2, [1, 0, 2, 1, 1, 0]))
         out.append(proto(st, 0, 3, [0, 2, 0]))
+        out.append(prog(st, 0, clone_ops(2), [[0], [1, 0]]))
+        out.append(lis4(st, 2, 1, [(5, 0, 11), (6, 0 if hedge else 1, 12)]))
     # the upstream defect: a layer calling a fresh clone instead of the instance it polled ready
-    for lid in ALL:
+    for lid in ALL + [20, 21, 22, 23]:
         out.append(transp([lid], 2, [(1, 0, 2)]))
         out.append(transp([lid], 1, [(1, 0, 2)]))
         out.append(proto([lid], 1 if lid in SPECIAL else 0, 2, []))
     out.append(lis(2, 3, 5, [0, 1, 1, 1, 0, 0]))
     out.append(lis(3, 2, 3, [2, 1, 4, 0]))
+    # reconnect's on_state_change / on_reconnect callbacks (fix 484f229: they were called without catch_unwind; a
+    # panicking on_state_change turned every successful call into a panic, a panicking on_reconnect every retry)
+    out.append(lis4([8], 1, 1, [(5, 0, 11)]))
+    out.append(lis4([4, 8, 0], 2, 3, [(5, 0, 11), (6, 1, 12)]))
+    out.append(lis(8, 1, 1, [0]))
+    out.append(lis(8, 2, 2, [2, 0]))
+    out.append(lis(8, 2, 3, [0, 1, 2, 4, 0]))
     # a breaker that has been open: the half-open trial call / the call after force_closed() or reset()
     # must go to an instance that was polled ready although the breaker read Open at poll_ready
     for lid in CB_VARIANTS:
@@ -128,6 +224,35 @@ def corpus():
         out.append(proto(st, 0, 2, [1, 0, 0]))
         for ik in (0, 1, 2):
             out.append(transp(st, ik, [(5, 0, 11), (6, 1, 12)]))
+    # every layer at its gate, hedge through its timer branch, readiness errors with their kind
+    for st in ([21], [4, 21], [21, 5], [6, 21, 0]):
+        out.append(prog(st, 0, gate_ops(False)))
+        out.append(prog(st, 0, gate_ops(True), [[0], [1, 0], [0]]))
+    out.append(prog([23], 0, [(POLL, 0, 0), (CALL, 0, 1), (GATE, 0, 0), (RELEASE, 1, 0), (POLL, 0, 0), (CALL, 0, 0)]))
+    for k in (1, 2, 3):
+        out.append(proto([20], k, 2, []))
+        out.append(proto([20], k, 1, [0, 1, 0, 2]))
+        out.append(proto([4, 20, 0], k, 2, [0, 1, 1, 0]))
+    out.append(proto([22], 0, 3, [0, 1, 0]))
+    for lid in ALL + [20, 21, 22, 23]:
+        out.append(proto([lid], 0, 2, [2, 0]))
+        out.append(proto([4, lid], 0, 2, [0, 2]))
+    # two retrying layers: a readiness error met by the inner one is not retried by the outer one
+    for st in ([3, 3], [3, 15], [15, 3], [8, 3], [3, 0, 15], [8, 4, 3]):
+        out.append(proto(st, 1, 1, []))
+        out.append(proto(st, 1, 2, [0, 2]))
+        out.append(proto(st, 2, 1, [0, 0, 1, 2]))
+    # more Pending answers before a further attempt than the client itself would accept
+    out.append(proto([3], 1, 1, [0] + [1] * 11 + [0]))
+    out.append(proto([8], 1, 1, [0] + [1] * 9 + [2]))
+    # a top-level poll_ready that stays Pending longer than the client waits
+    out.append(proto([0], 0, 2, [1] * 8 + [0]))
+    out.append(proto([4, 5, 3], 1, 2, [1] * 9))
+    out.append(prog([0], 0, seq_ops(2), [[1] * 8 + [0]]))
+    # overlapping requests, futures left un-polled
+    out.append(prog([0], 0, [(POLL, 0, 0), (CALL, 0, 1), (POLL, 0, 0), (CALL, 0, 1), (RELEASE, 2, 0), (RELEASE, 1, 0)]))
+    out.append(prog([0], 0, [(POLL, 0, 0), (LAZY, 0, 0), (POLL, 0, 0), (LAZY, 0, 0), (DRIVE, 2, 0), (DRIVE, 1, 0)]))
+    out.append(prog([7], 2, seq_ops(2), [[0], [1, 0], [1, 1, 0], [0], [2], [1, 0]]))
     return out
 
 
@@ -157,16 +282,23 @@ def single_layer_oracles(lid, k, nreq, rich):
                         yield [0] * p + [x] + [0] * (q - p - 1) + [y]
 
 
-def rand_oracle(rng, length, allow_pending=True):
+def rand_oracle(rng, length, allow_pending=True, maxrun=5):
     out, run = [], 0
     for _ in range(length):
         r = rng.random()
         x = 0 if r < 0.5 else (1 if r < 0.8 else 2)
-        if x == 1 and (not allow_pending or run >= 5):
+        if x == 1 and (not allow_pending or run >= maxrun):
             x = 0
         run = run + 1 if x == 1 else 0
         out.append(x)
     return out
+
+
+def rand_segs(rng, ninst, maxlen=4, first_ready=False):
+    segs = [rand_oracle(rng, rng.randrange(0, maxlen + 1)) for _ in range(ninst)]
+    if first_ready and segs and segs[0]:
+        segs[0][0] = 0     # the request that is to hold the gate closed gets through
+    return segs
 
 
 def rand_reqs(rng, n, ok_only):
@@ -177,22 +309,63 @@ def rand_stack(rng, lo, hi):
     return [rng.choice(ALL) for _ in range(rng.randrange(lo, hi + 1))]
 
 
+def rand_overlap(rng, nreq, lazy):
+    """poll / call / clone / release over a few handles; at most three requests held at a time (a bulkhead of 4,
+    a ConcurrencyLimit-like layer must not close); with [lazy] some futures are left un-polled and driven later"""
+    ops, nh, held, undriven, issued = [], 1, [], [], 0
+    while issued < nreq:
+        r = rng.random()
+        if r < 0.2 and nh < 4:
+            ops.append((CLONE, rng.randrange(nh), 0))
+            nh += 1
+        elif r < 0.35 and held:
+            j = held.pop(rng.randrange(len(held)))
+            ops.append((RELEASE, j, 0))
+        elif r < 0.45 and undriven:
+            j = undriven.pop(rng.randrange(len(undriven)))
+            ops.append((DRIVE, j, 0))
+        else:
+            h = rng.randrange(nh)
+            ops.append((POLL, h, 0))
+            if rng.random() < 0.15:
+                ops.append((POLL, h, 0))      # polling a ready handle again is allowed
+            issued += 1
+            if lazy and rng.random() < 0.5:
+                ops.append((LAZY, h, 0))
+                undriven.append(issued)
+            elif len(held) < 3 and rng.random() < 0.6:
+                ops.append((CALL, h, 1))
+                held.append(issued)
+            else:
+                ops.append((CALL, h, 0))
+    rng.shuffle(held)
+    for j in held:
+        if rng.random() < 0.7:
+            ops.append((RELEASE, j, 0))
+    for j in undriven:
+        if rng.random() < 0.7:
+            ops.append((DRIVE, j, 0))
+    return ops
+
+
 def generate(rng, tier):
     quick = tier == "quick"
     out = []
+    plain = [i for i in ALL if i not in SPECIAL]
     # ---- mode 1: every layer alone
-    for lid in ALL:
+    for lid in ALL + [20, 21, 22, 23]:
         ks = (0, 1, 2, 3) if lid in SPECIAL else (0, 2)
         for k in ks:
             for nreq in ((1, 2) if quick else (1, 2, 3)):
                 for orc in single_layer_oracles(lid, k, nreq, not quick and nreq <= 2):
                     out.append(proto([lid], k, nreq, orc))
     for _ in range(300 if quick else 6000):
-        lid = rng.choice(ALL)
+        lid = rng.choice(ALL + [20, 21, 22, 23])
         k = rng.randrange(4) if lid in SPECIAL else rng.choice((0, 0, 1, 3))
         nreq = rng.randrange(1, 4)
         np_ = n_polls([lid], k, nreq)
-        out.append(proto([lid], k, nreq, rand_oracle(rng, rng.randrange(0, np_ + 3), not (lid == 7 and k > 0))))
+        out.append(proto([lid], k, nreq, rand_oracle(rng, rng.randrange(0, np_ + 3), not (lid == 7 and k > 0),
+                                                     rng.choice((5, 5, 12)))))
     if not quick:
         # all oracles up to length 4
         def alls(length):
@@ -202,7 +375,7 @@ def generate(rng, tier):
             for r in alls(length - 1):
                 for x in (0, 1, 2):
                     yield r + [x]
-        for lid in ALL:
+        for lid in ALL + [20, 22]:
             for k in ((0, 1, 2) if lid in SPECIAL else (0,)):
                 for nreq in (1, 2):
                     for length in range(1, 5):
@@ -213,6 +386,8 @@ def generate(rng, tier):
     # ---- mode 1: stacks, k = 0
     for _ in range(350 if quick else 6000):
         st = rand_stack(rng, 2, 4)
+        if rng.random() < 0.2:
+            st[rng.randrange(len(st))] = rng.choice((20, 21, 22, 23))
         nreq = rng.randrange(1, 4)
         out.append(proto(st, 0, nreq, rand_oracle(rng, rng.randrange(0, nreq + 4))))
     for st in GUIDE:
@@ -220,27 +395,37 @@ def generate(rng, tier):
             nreq = rng.randrange(1, 4)
             out.append(proto(st, 0, nreq, rand_oracle(rng, rng.randrange(0, nreq + 4))))
     # ---- mode 1: stacks with exactly one retry / reconnect layer and k > 0
-    # (the wrapped service fails the first k attempts of a request, so a second retrying layer
-    # would see successes where the model assumes k failures)
-    plain = [i for i in ALL if i not in SPECIAL]
     for _ in range(250 if quick else 5000):
-        st = [rng.choice(plain) for _ in range(rng.randrange(1, 4))]
-        st.insert(rng.randrange(len(st) + 1), rng.choice((3, 8)))
+        st = [rng.choice(plain + [21, 22]) for _ in range(rng.randrange(1, 4))]
+        st.insert(rng.randrange(len(st) + 1), rng.choice((3, 8, 15)))
         k = rng.randrange(1, 4)
         nreq = rng.randrange(1, 3)
-        out.append(proto(st, k, nreq, rand_oracle(rng, rng.randrange(0, nreq * (k + 1) + 2))))
-    # ---- mode 1: stacks around a hedge with k > 0: no task-spawning layer (executor, non-cancelling
-    # time limiter) below the hedge, Ready/Err answers only, so that the hedge tasks run one after the other
-    below_ok = [i for i in plain if i not in (11, 14)]
+        out.append(proto(st, k, nreq, rand_oracle(rng, rng.randrange(0, nreq * (k + 1) + 2), True, rng.choice((5, 12)))))
+    # ---- mode 1: two retrying layers (the wrapped service fails every attempt but the last possible one)
     for _ in range(150 if quick else 3000):
+        outer, inner = rng.choice(((3, 3), (3, 15), (15, 3), (15, 15), (8, 3), (8, 15)))
+        a = [rng.choice(plain) for _ in range(rng.randrange(0, 2))]
+        m = [rng.choice(plain) for _ in range(rng.randrange(0, 2))]
+        b = [rng.choice(plain) for _ in range(rng.randrange(0, 2))]
+        k = rng.randrange(1, 3)
+        nreq = rng.randrange(1, 3)
+        out.append(proto(a + [outer] + m + [inner] + b, k, nreq,
+                         rand_oracle(rng, rng.randrange(0, nreq * (k + 1) * (k + 1) + 2))))
+    # ---- mode 1: stacks around a hedge with k > 0: no task-spawning layer (executor, non-cancelling
+    # time limiter) below the hedge; parallel mode (7): Ready/Err answers only, so that the hedge tasks run one
+    # after the other; latency mode (20): one hedge per millisecond, Pending answers too
+    below_ok = [i for i in plain if i not in (11, 14)]
+    for _ in range(200 if quick else 4000):
         above = [rng.choice(plain) for _ in range(rng.randrange(0, 3))]
         below = [rng.choice(below_ok) for _ in range(rng.randrange(0 if above else 1, 3))]
         k = rng.randrange(1, 4)
         nreq = rng.randrange(1, 3)
-        out.append(proto(above + [7] + below, k, nreq, rand_oracle(rng, rng.randrange(0, nreq * (k + 1) + 2), False)))
+        hid = rng.choice(HEDGES)
+        out.append(proto(above + [hid] + below, k, nreq,
+                         rand_oracle(rng, rng.randrange(0, nreq * (k + 1) + 2), hid == 20)))
     if not quick:
-        for a in ALL:
-            for b in ALL:
+        for a in ALL + [20, 21, 22, 23]:
+            for b in ALL + [20, 21, 22, 23]:
                 for orc in ([], [1, 0, 2], [0, 2, 1, 0], [2, 0, 1, 1, 0]):
                     out.append(proto([a, b], 0, 2, orc))
     # ---- mode 1: a breaker that starts Open (16 / 17): alone, and at every depth of a stack. k = 0, or
@@ -270,6 +455,57 @@ def generate(rng, tier):
             orc.append(x)
             answered += x == 0
         out.append(proto(st, k, nreq, orc + rand_oracle(rng, rng.randrange(0, (nreq - 1) * (k + 1) + 2))))
+    # ---- mode 3: client programs
+    prog_plain = [i for i in PROG if i not in SPECIAL]
+    for lid in PROG + [20, 21, 22, 23]:
+        k = 1 if lid in SPECIAL else 0
+        for nreq in (1, 2):
+            out.append(prog([lid], k, seq_ops(nreq)))
+            out.append(prog([lid], k, clone_ops(nreq)))
+            for _ in range(2 if quick else 12):
+                out.append(prog([lid], k, seq_ops(nreq), rand_segs(rng, 2 + nreq * (k + 1))))
+                out.append(prog([lid], k, clone_ops(nreq), rand_segs(rng, 2 + nreq * (k + 1))))
+    for _ in range(200 if quick else 4000):
+        # sequential / clone-per-request clients over stacks with one special layer (parallel hedges with
+        # Pending answers on their clones included)
+        st = [rng.choice(prog_plain) for _ in range(rng.randrange(0, 3))]
+        sp = rng.choice((3, 7, 7, 8, 15, 20))
+        if sp in HEDGES:
+            st = [i for i in st if i not in (11, 14)] if rng.random() < 0.7 else st
+            pos = len(st) if any(i in (11, 14) for i in st) else rng.randrange(len(st) + 1)
+        else:
+            pos = rng.randrange(len(st) + 1)
+        st.insert(pos, sp)
+        k = rng.randrange(0, 4)
+        nreq = rng.randrange(1, 3)
+        ops = clone_ops(nreq) if rng.random() < 0.4 else seq_ops(nreq)
+        out.append(prog(st, k, ops, rand_segs(rng, rng.randrange(1, 3 + nreq * (k + 1)), 3)))
+    for _ in range(250 if quick else 5000):
+        # overlapping requests (k = 0): held calls released in any order, several handles
+        st = [rng.choice(prog_plain + [3, 7, 8, 15]) for _ in range(rng.randrange(1, 4))]
+        out.append(prog(st, 0, rand_overlap(rng, rng.randrange(2, 6), False), rand_segs(rng, rng.randrange(0, 7), 3)))
+    for _ in range(100 if quick else 2000):
+        # futures left un-polled while the client goes on (compared on codes / calls only)
+        st = [rng.choice(prog_plain + [3, 7, 8, 15]) for _ in range(rng.randrange(1, 4))]
+        out.append(prog(st, 0, rand_overlap(rng, rng.randrange(2, 5), True), rand_segs(rng, rng.randrange(0, 6), 2)))
+    for _ in range(120 if quick else 2500):
+        # the bulkhead at its gate, at every depth; the queued request sees Pending / Err answers too
+        above = [rng.choice(prog_plain) for _ in range(rng.randrange(0, 3))]
+        below = [rng.choice(prog_plain) for _ in range(rng.randrange(0, 3))]
+        held2 = rng.random() < 0.4
+        ops = gate_ops(held2)
+        if rng.random() < 0.4:
+            # the queued request comes through a clone of the stack
+            ops = [(POLL, 0, 0), (CALL, 0, 1), (CLONE, 0, 0), (POLL, 1, 0), (CALL, 1, 1 if held2 else 0),
+                   (RELEASE, 1, 0)] + ([(RELEASE, 2, 0)] if held2 else []) + [(POLL, 1, 0), (CALL, 1, 0)]
+        out.append(prog(above + [21] + below, 0, ops, rand_segs(rng, rng.randrange(0, 5), 3, True)))
+    for _ in range(40 if quick else 800):
+        # the adaptive limiter at its limit: Pending without touching the wrapped service
+        above = [rng.choice(prog_plain) for _ in range(rng.randrange(0, 2))]
+        below = [rng.choice(prog_plain) for _ in range(rng.randrange(0, 2))]
+        ops = [(POLL, 0, 0), (CALL, 0, 1)] + [(GATE, 0, 0)] * rng.randrange(1, 3) + \
+              [(RELEASE, 1, 0), (POLL, 0, 0), (CALL, 0, 0)]
+        out.append(prog(above + [23] + below, 0, ops, rand_segs(rng, rng.randrange(0, 4), 3, True)))
     # ---- mode 0: the same breakers; the first request is the trial call and succeeds
     def first_ok(reqs):
         return [(reqs[0][0], 0, reqs[0][2])] + list(reqs[1:])
@@ -285,19 +521,21 @@ def generate(rng, tier):
             st = base[:pos] + [rng.choice(OPENED)] + base[pos:]
             out.append(transp(st, rng.randrange(3), first_ok(rand_reqs(rng, rng.randrange(1, 4), 7 in st))))
     # ---- mode 0: every layer alone
-    for lid in ALL:
+    for lid in ALL + [20, 21, 22, 23]:
         for ik in (0, 1, 2):
             pats = [[(5, 0, 11)], [(5, 0, 11), (6, 0, 12), (5, 0, 13)]]
-            if lid != 7:
+            if lid not in HEDGES:
                 pats += [[(6, 1, 12)], [(5, 0, 11), (6, 1, 12), (5, 0, 13), (5, 1, 11), (7, 1, 0)]]
             for reqs in pats:
                 out.append(transp([lid], ik, reqs))
             for _ in range(2 if quick else 20):
-                out.append(transp([lid], ik, rand_reqs(rng, rng.randrange(1, 5), lid == 7)))
+                out.append(transp([lid], ik, rand_reqs(rng, rng.randrange(1, 5), lid in HEDGES)))
     # ---- mode 0: stacks
     for _ in range(450 if quick else 8000):
         st = rand_stack(rng, 2, 5)
-        out.append(transp(st, rng.randrange(3), rand_reqs(rng, rng.randrange(1, 4), 7 in st)))
+        if rng.random() < 0.15:
+            st[rng.randrange(len(st))] = rng.choice((20, 21, 22, 23))
+        out.append(transp(st, rng.randrange(3), rand_reqs(rng, rng.randrange(1, 4), any(h in st for h in HEDGES))))
     for st in GUIDE:
         for ik in (0, 1, 2):
             for _ in range(2 if quick else 20):
@@ -322,6 +560,19 @@ def generate(rng, tier):
         out.append(lis(lid, nl, rng.randrange(1, 1 << nl), [rng.randrange(5) for _ in range(rng.randrange(1, 9))]))
     for lid in NO_LISTENER_LAYERS:
         out.append(lis(lid, 2, 3, [0, 1, 0]))
+    # ---- mode 4: listeners on every layer of a stack, absolute per-kind counts
+    for lid in list(range(16)) + [20, 21, 22, 23]:
+        for nl in (1, 2, 3):
+            for mask in range(1 << nl):
+                out.append(lis4([lid], nl, mask, [(5, 0, 11), (6, 0 if lid in HEDGES else 1, 12), (5, 0, 13)]))
+    for st in GUIDE:
+        for nl in (1, 2, 3):
+            for mask in (range(1 << nl) if not quick else (0, (1 << nl) - 1, 1)):
+                out.append(lis4(st, nl, mask, rand_reqs(rng, rng.randrange(1, 4), 7 in st)))
+    for _ in range(200 if quick else 3000):
+        st = [rng.choice(list(range(16)) + [21, 22]) for _ in range(rng.randrange(2, 6))]
+        nl = rng.randrange(1, 4)
+        out.append(lis4(st, nl, rng.randrange(1 << nl), rand_reqs(rng, rng.randrange(1, 4), 7 in st)))
     return out
 
 
@@ -334,29 +585,80 @@ def parse1(s):
     return n, ids, k, nreq, list(s[4 + n:])
 
 
+def parse3(s):
+    n, ids, k, nops, rest = parse1(s)
+    ops = [tuple(rest[3 * i: 3 * i + 3]) for i in range(nops)]
+    segs, cur = [], []
+    for x in rest[3 * nops:]:
+        if x == -1:
+            segs.append(cur)
+            cur = []
+        else:
+            cur.append(x)
+    if cur:
+        segs.append(cur)
+    return n, ids, k, ops, segs
+
+
+def split3(s, t):
+    """(op codes, request outcome codes, log, violations) of a mode-3 trace, or None"""
+    n, ids, k, ops, segs = parse3(s)
+    if len(t) < len(ops) + 1:
+        return None
+    codes = t[:len(ops)]
+    nreq = sum(1 for (o, c) in zip(ops, codes) if o[0] in (CALL, LAZY) and c == 0)
+    rest = t[len(ops) + nreq:]
+    if len(t) < len(ops) + nreq + 1 or (len(rest) - 1) % 4 != 0:
+        return None
+    outs = t[len(ops):len(ops) + nreq]
+    log = [tuple(rest[4 * i: 4 * i + 4]) for i in range((len(rest) - 1) // 4)]
+    return codes, outs, log, rest[-1]
+
+
 def model_input(s, impl_trace):
-    """the model knows disciplines, not crates: rewrite the real layer ids of a mode-1 script into
-    the discipline code of each layer"""
-    if not s or s[0] != 1:
+    """the model knows disciplines, not crates: rewrite the real layer ids of a protocol script (modes 1, 3)
+    into the discipline code of each layer"""
+    if not s or s[0] not in (1, 3):
         return list(s)
-    n, ids, k, nreq, orc = parse1(s)
-    return [1, n] + [DISC.get(i, 0) for i in ids] + [k, nreq] + orc
+    n = s[1]
+    return list(s[:2]) + [DISC.get(i, 0) for i in s[2:2 + n]] + list(s[2 + n:])
 
 
-def mon_protocol(s, t):
-    n, ids, k, nreq, orc = parse1(s)
-    if len(t) < nreq + 1 or (len(t) - nreq - 1) % 3 != 0:
-        return "malformed or panicking run: %s" % t
-    codes = t[:nreq]
-    log = [tuple(t[nreq + 3 * i: nreq + 3 * i + 3]) for i in range((len(t) - nreq - 1) // 3)]
-    if t[-1] != 0:
-        return "%d call(s) reached a wrapped-service instance that had not been polled ready" % t[-1]
-    bad = [c for c in codes if c not in (0, 1, 2, 3)]
-    if bad:
-        return "request ended with a panic or never completed (code %d)" % bad[0]
-    # the Tower contract, replayed from the log alone
+def project(log):
+    per = {}
+    for (kind, inst, v, q) in log:
+        per.setdefault(inst, []).append((kind, v, q))
+    return per
+
+
+def compare(s, impl, model):
+    """traces must be equal, except (see ASSUMPTIONS): mode-3 scripts with parallel hedge attempts are compared
+    instance by instance, mode-3 scripts with un-polled futures on codes, violations and the multiset of calls"""
+    if impl == model:
+        return None
+    if s and s[0] == 3:
+        n, ids, k, ops, segs = parse3(s)
+        a, b = split3(s, impl), split3(s, model)
+        if a is None or b is None:
+            return "traces differ"
+        if any(o[0] == LAZY for o in ops):
+            calls = lambda log: sorted((v, q) for (kind, _, v, q) in log if kind == 2)
+            if (a[0], a[1], a[3]) == (b[0], b[1], b[3]) and calls(a[2]) == calls(b[2]):
+                return None
+            return "codes, violations or the calls made differ (script with un-polled futures)"
+        if k > 0 and 7 in ids:
+            if (a[0], a[1], a[3]) == (b[0], b[1], b[3]) and project(a[2]) == project(b[2]):
+                return None
+            return "traces differ instance by instance (script with parallel hedges)"
+    return "traces differ"
+
+
+def mon_contract(log, violations):
+    """the Tower contract, replayed from the wrapped service's log alone"""
+    if violations != 0:
+        return "%d call(s) reached a wrapped-service instance that had not been polled ready" % violations
     ready = {}
-    for (kind, inst, v) in log:
+    for (kind, inst, v, q) in log:
         if kind == 1:
             if v == 0:
                 ready[inst] = True
@@ -365,83 +667,118 @@ def mon_protocol(s, t):
                 return "call on instance %d without readiness observed on it since its previous call" % inst
             ready[inst] = False
         else:
-            return "malformed log entry %s" % ((kind, inst, v),)
-    polls = [v for (kind, _, v) in log if kind == 1]
-    exp = [(x if x in (0, 1) else 2) for x in orc]
-    exp = (exp + [0] * len(polls))[:len(polls)]
-    if polls != exp:
-        return "harness: the wrapped service did not answer polls from the oracle in order"
-    # request by request: top-level readiness, the call, then the extra attempts
-    special = [i for i in ids if i in SPECIAL]
-    if k > 0 and len(special) > 1:
-        return None      # attempts cannot be attributed to one layer; the checks above still hold
-    extra = k if special else 0
-    hedge = bool(special) and special[0] == 7
-    pos = 0
-
-    def polls_until(pos):
-        """(result, instance, next position): result 'ready' | 'err' | 'never' | 'nopoll'"""
-        if pos >= len(log) or log[pos][0] != 1:
-            return "nopoll", None, pos
-        inst, pend = log[pos][1], 0
-        while pos < len(log) and log[pos][0] == 1 and log[pos][1] == inst:
-            v = log[pos][2]
-            pos += 1
-            if v == 0:
-                return "ready", inst, pos
-            if v == 2:
-                return "err", inst, pos
-            pend += 1
-            if pend >= 8:
-                return "never", inst, pos
-        return "nopoll", inst, pos
-
-    for j, c in enumerate(codes):
-        r, inst, pos = polls_until(pos)
-        if r == "nopoll":
-            return "request %d: the wrapped service was called or left without a completed readiness poll" % (j + 1)
-        if r == "never":
-            if c != 3:
-                return "request %d: never ready, reported as %d" % (j + 1, c)
-            continue
-        if r == "err":
-            if c != 1:
-                return "request %d: a readiness error of the wrapped service did not surface from poll_ready (code %d)" % (j + 1, c)
-            continue
-        if c not in (0, 2):
-            return "request %d: ready, but reported code %d" % (j + 1, c)
-        if pos >= len(log) or log[pos] != (2, inst, 1):
-            return "request %d: the call did not go to the instance that was polled ready" % (j + 1)
-        pos += 1
-        ended = False
-        for _ in range(extra):
-            r, inst, pos = polls_until(pos)
-            if r == "nopoll":
-                return "request %d: a further attempt was not preceded by a readiness poll" % (j + 1)
-            if r in ("err", "never"):
-                if hedge:
-                    continue     # that hedge fails; the others and the primary go on
-                if c != 2:
-                    return "request %d: readiness error before a further attempt did not end the call as a readiness error" % (j + 1)
-                ended = True
-                break
-            if pos >= len(log) or log[pos] != (2, inst, 1):
-                return "request %d: a further attempt did not go to the instance that was polled ready" % (j + 1)
-            pos += 1
-        if not ended and c != 0:
-            return "request %d: reported a readiness error that the wrapped service never returned" % (j + 1)
-    if pos != len(log):
-        return "polls or calls on the wrapped service that no request accounts for: %s" % (log[pos:],)
+            return "malformed log entry %s" % ((kind, inst, v, q),)
     return None
 
 
-def mon_transparent(s, t):
+BAD_CODE = {
+    4: "a readiness error of the wrapped service surfaced from poll_ready as something other than a readiness error "
+       "in pass-through wrapping",
+    5: "a readiness error met inside the call surfaced in a wrapping other than the layers' pass-through variants",
+    6: "the request did not end with the wrapped service's answer (nor with a readiness error)",
+    7: "panic",
+    9: "the request never completed",
+}
+
+
+def tolerated_failures(ids, log, codes):
+    """how many requests may end with a failure made up by a layer (code 6) without violating the property:
+    * a breaker that has been open (16, 17) rejects again once its half-open trial call has failed: its
+      protective condition IS triggered then;
+    * hedge reports every failure of its attempts, a readiness error met further down included, as
+      AllAttemptsFailed (see ASSUMPTIONS): at most one request per readiness error that did not surface"""
+    if any(i in OPENED for i in ids):
+        return len(codes)
+    if any(h in ids for h in HEDGES):
+        errs = sum(1 for (kind, _, v, _) in log if kind == 1 and v == 2)
+        return max(0, errs - sum(1 for c in codes if c in (1, 2)))
+    return 0
+
+
+def mon_surface(ids, k, log, surfaced, issued, outcomes):
+    """readiness errors surface as readiness errors; every issued request reaches the wrapped service unchanged"""
+    errs = sum(1 for (kind, _, v, _) in log if kind == 1 and v == 2)
+    hedge = any(h in ids for h in HEDGES)
+    if surfaced > errs:
+        return "%d readiness error(s) reported, the wrapped service returned only %d" % (surfaced, errs)
+    if surfaced < errs and not hedge:
+        return "%d readiness error(s) of the wrapped service, only %d surfaced as readiness errors" % (errs, surfaced)
+    special = k > 0 and any(i in SPECIAL for i in ids)
+    sent = {}
+    for (kind, _, v, q) in log:
+        if kind == 2:
+            sent[q] = sent.get(q, 0) + 1
+    for q in sent:
+        if q not in issued:
+            return "the wrapped service saw request %d, which the client never issued" % q
+    for q, c in zip(issued, outcomes):
+        if c == 0 and sent.get(q, 0) < 1:
+            return "request %d answered although the wrapped service never saw it" % q
+        if c == 0 and not special and sent.get(q, 0) != 1:
+            return "request %d was forwarded %d times" % (q, sent.get(q, 0))
+    return None
+
+
+def mon_protocol(s, t):
+    n, ids, k, nreq, orc = parse1(s)
+    if len(t) < nreq + 1 or (len(t) - nreq - 1) % 4 != 0:
+        return "malformed or panicking run: %s" % t
+    codes = t[:nreq]
+    log = [tuple(t[nreq + 4 * i: nreq + 4 * i + 4]) for i in range((len(t) - nreq - 1) // 4)]
+    m = mon_contract(log, t[-1])
+    if m:
+        return m
+    tolerated = tolerated_failures(ids, log, codes)
+    for j, c in enumerate(codes):
+        if c == 6 and tolerated > 0:
+            tolerated -= 1
+            continue
+        if c in BAD_CODE:
+            return "request %d: %s" % (j + 1, BAD_CODE[c])
+        if c not in (0, 1, 2, 3):
+            return "request %d: unknown code %d" % (j + 1, c)
+    issued = [j + 1 for j, c in enumerate(codes) if c in (0, 2)]
+    return mon_surface(ids, k, log, sum(1 for c in codes if c in (1, 2)), issued, [c for c in codes if c in (0, 2)])
+
+
+def mon_program(s, t):
+    n, ids, k, ops, segs = parse3(s)
+    sp = split3(s, t)
+    if sp is None:
+        return "malformed or panicking run: %s" % t
+    codes, outs, log, viol = sp
+    m = mon_contract(log, viol)
+    if m:
+        return m
+    surfaced = 0
+    for i, (o, c) in enumerate(zip(ops, codes)):
+        if o[0] in (POLL, GATE):
+            if c in (4, 7):
+                return "operation %d (poll_ready): %s" % (i + 1, BAD_CODE[c])
+            surfaced += c == 1
+        elif c == 7:
+            return "operation %d: panic" % (i + 1)
+    tolerated = tolerated_failures(ids, log, list(outs) + [1] * surfaced)
+    for j, c in enumerate(outs):
+        if c == 6 and tolerated > 0:
+            tolerated -= 1
+            continue
+        if c in BAD_CODE:
+            return "request %d: %s" % (j + 1, BAD_CODE[c])
+        if c not in (0, 2):
+            return "request %d: unknown code %d" % (j + 1, c)
+    surfaced += sum(1 for c in outs if c == 2)
+    return mon_surface(ids, k, log, surfaced, list(range(1, len(outs) + 1)), outs)
+
+
+def mon_transparent(s, t, base=None):
     n = s[1]
-    nreq = s[3 + n]
-    if len(t) != 4 * nreq:
+    base = 3 + n if base is None else base
+    nreq = s[base]
+    if len(t) < 4 * nreq:
         return "malformed or panicking run: %s" % t
     for i in range(nreq):
-        req, okind, oval = s[4 + n + 3 * i: 7 + n + 3 * i]
+        req, okind, oval = s[base + 1 + 3 * i: base + 4 + 3 * i]
         ncalls, seen, kind, payload = t[4 * i: 4 * i + 4]
         if kind > 1:
             return "request %d: the outcome is not the inner outcome in pass-through wrapping (kind %d, payload %d)" % (i + 1, kind, payload)
@@ -466,14 +803,41 @@ def mon_listeners(s, t):
     return None
 
 
+NK = 6
+
+
+def mon_listeners_stack(s, t):
+    n = s[1]
+    nl, mask, nreq = min(4, max(0, s[2 + n])), s[3 + n], s[4 + n]
+    if len(t) != 4 * nreq + n * nl * NK:
+        return "malformed or panicking run: %s" % t
+    m = mon_transparent(s, t, 4 + n)
+    if m:
+        return m + " (listener panic mask %d)" % mask
+    # every listener of a layer receives every event its fellow listeners receive, whichever of them panic
+    for p in range(n):
+        if s[2 + p] == 8:
+            continue      # reconnect: one callback per kind, the listeners receive different events
+        vecs = [t[4 * nreq + (p * nl + i) * NK: 4 * nreq + (p * nl + i + 1) * NK] for i in range(nl)]
+        for i in range(1, nl):
+            if vecs[i] != vecs[0]:
+                return ("layer %d: listener %d received %s events per kind, listener 0 received %s (mask %d)"
+                        % (p, i, vecs[i], vecs[0], mask))
+    return None
+
+
 def monitor(s, t):
     """independent restatement of the property over the implementation's trace"""
     if not s:
         return None
     if s[0] == 1:
         return mon_protocol(s, t)
+    if s[0] == 3:
+        return mon_program(s, t)
     if s[0] == 0:
         return mon_transparent(s, t)
+    if s[0] == 4:
+        return mon_listeners_stack(s, t)
     return mon_listeners(s, t)
 
 
@@ -481,33 +845,73 @@ def nontrivial(s, t):
     if s[0] == 1:
         n, ids, k, nreq, orc = parse1(s)
         return k > 0 or any(x != 0 for x in orc)
+    if s[0] == 3:
+        n, ids, k, ops, segs = parse3(s)
+        return (any(o[0] in (CLONE, LAZY, GATE) or (o[0] == CALL and o[2] == 1) for o in ops)
+                or any(x != 0 for sg in segs for x in sg) or any(i in (21, 22, 23) for i in ids))
     if s[0] == 0:
         n = s[1]
         return n >= 2 or s[2 + n] != 0
+    if s[0] == 4:
+        return s[3 + s[1]] != 0
     return s[3] != 0
+
+
+def name_of(i):
+    return NAMES[i] if 0 <= i < len(NAMES) else "?"
 
 
 def classify(s, t):
     if s[0] == 1:
         n, ids, k, nreq, orc = parse1(s)
-        lab = ["mode1", "depth%d" % n, "k%d" % k] + ["L:" + NAMES[i] for i in sorted(set(ids)) if 0 <= i < len(NAMES)]
+        lab = ["mode1", "depth%d" % n, "k%d" % k] + ["L:" + name_of(i) for i in sorted(set(ids))]
         if 1 in orc:
             lab.append("oracle:pending")
         if any(x not in (0, 1) for x in orc):
             lab.append("oracle:err")
+        if k > 0 and len([i for i in ids if i in SPECIAL]) > 1:
+            lab.append("two-retrying-layers")
         for c in t[:nreq]:
             lab.append("code%d" % c)
         return sorted(set(lab))
-    if s[0] == 0:
+    if s[0] == 3:
+        n, ids, k, ops, segs = parse3(s)
+        lab = ["mode3", "depth%d" % n, "k%d" % k] + ["L:" + name_of(i) for i in sorted(set(ids))]
+        kinds = set(o[0] for o in ops)
+        for (c, nm) in ((CLONE, "clone"), (RELEASE, "release"), (GATE, "gate-closed-poll"), (LAZY, "unpolled-future")):
+            if c in kinds:
+                lab.append("op:" + nm)
+        if any(o[0] == CALL and o[2] == 1 for o in ops):
+            lab.append("op:held-call")
+        flat = [x for sg in segs for x in sg]
+        if 1 in flat:
+            lab.append("oracle:pending")
+        if 2 in flat:
+            lab.append("oracle:err")
+        sp = split3(s, t)
+        if sp:
+            for c in sp[1]:
+                lab.append("code%d" % c)
+            for (o, c) in zip(ops, sp[0]):
+                if o[0] == POLL and c != 0:
+                    lab.append("poll-code%d" % c)
+                if c == 8:
+                    lab.append("refused")
+        return sorted(set(lab))
+    if s[0] in (0, 4):
         n = s[1]
         ids = s[2:2 + n]
-        nreq = s[3 + n]
-        lab = ["mode0", "depth%d" % n, "inner%d" % s[2 + n]] + ["L:" + NAMES[i] for i in sorted(set(ids)) if 0 <= i < len(NAMES)]
-        kinds = set(s[5 + n + 3 * i] for i in range(nreq))
+        base = 3 + n if s[0] == 0 else 4 + n
+        nreq = s[base]
+        lab = ["mode%d" % s[0], "depth%d" % n] + ["L:" + name_of(i) for i in sorted(set(ids))]
+        if s[0] == 0:
+            lab.append("inner%d" % s[2 + n])
+        else:
+            lab += ["listeners%d" % s[2 + n], "panicking%d" % bin(s[3 + n] & 15).count("1")]
+        kinds = set(s[base + 2 + 3 * i] for i in range(nreq))
         lab += ["inner_ok" if x == 0 else "inner_err" for x in kinds]
         return sorted(set(lab))
-    lab = ["mode2", "L:" + NAMES[s[1]] if 0 <= s[1] < len(NAMES) else "L:?", "listeners%d" % s[2],
-           "panicking%d" % bin(s[3]).count("1")]
+    lab = ["mode2", "L:" + name_of(s[1]), "listeners%d" % s[2], "panicking%d" % bin(s[3]).count("1")]
     return lab
 
 
@@ -527,21 +931,47 @@ def shrink(s):
         if n > 1:
             for i in range(n):
                 yield proto(ids[:i] + ids[i + 1:], k, nreq, orc)
-    elif s[0] == 0:
-        n = s[1]
-        ids = list(s[2:2 + n])
-        ik, nreq = s[2 + n], s[3 + n]
-        reqs = [tuple(s[4 + n + 3 * i: 7 + n + 3 * i]) for i in range(nreq)]
-        for i in range(nreq):
-            yield transp(ids, ik, reqs[:i] + reqs[i + 1:])
+    elif s[0] == 3:
+        n, ids, k, ops, segs = parse3(s)
+        for i in range(len(segs)):
+            if segs[i]:
+                yield prog(ids, k, ops, segs[:i] + [[]] + segs[i + 1:])
+        if segs and not segs[-1]:
+            yield prog(ids, k, ops, segs[:-1])
+        for i in range(len(ops) - 1, -1, -1):
+            yield prog(ids, k, ops[:i] + ops[i + 1:], segs)
+        if k > 0:
+            yield prog(ids, k - 1, ops, segs)
         if n > 1:
             for i in range(n):
-                yield transp(ids[:i] + ids[i + 1:], ik, reqs)
-        if ik != 0:
+                yield prog(ids[:i] + ids[i + 1:], k, ops, segs)
+    elif s[0] in (0, 4):
+        n = s[1]
+        ids = list(s[2:2 + n])
+        base = 3 + n if s[0] == 0 else 4 + n
+        nreq = s[base]
+        reqs = [tuple(s[base + 1 + 3 * i: base + 4 + 3 * i]) for i in range(nreq)]
+        if s[0] == 0:
+            mk = lambda ids_, reqs_, ik=s[2 + n]: transp(ids_, ik, reqs_)
+        else:
+            mk = lambda ids_, reqs_: lis4(ids_, s[2 + n], s[3 + n], reqs_)
+        for i in range(nreq):
+            yield mk(ids, reqs[:i] + reqs[i + 1:])
+        if n > 1:
+            for i in range(n):
+                yield mk(ids[:i] + ids[i + 1:], reqs)
+        if s[0] == 0 and s[2 + n] != 0:
             yield transp(ids, 0, reqs)
+        if s[0] == 4:
+            nl, mask = s[2 + n], s[3 + n]
+            for b in range(nl):
+                if mask >> b & 1 and mask != 1 << b:
+                    yield lis4(ids, nl, mask & ~(1 << b), reqs)
+            if nl > 1 and mask < (1 << (nl - 1)):
+                yield lis4(ids, nl - 1, mask, reqs)
         for i, (r, o, v) in enumerate(reqs):
             if (r, v) != (1, 2):
-                yield transp(ids, ik, reqs[:i] + [(1, o, 2)] + reqs[i + 1:])
+                yield mk(ids, reqs[:i] + [(1, o, 2)] + reqs[i + 1:])
     else:
         lid, nl, mask, nreq = s[1:5]
         oks = list(s[5:5 + nreq])
